@@ -22,3 +22,21 @@ let print_cmd = function
   | _ -> "BADCMD"
 
 let () = Driver.register "print" print_cmd
+
+(* C10: `order <n> (sev title desc file sl sc sr el ec er)*` -> the items in output order, as `O(sev title desc file range)` *)
+let sevn = function "Error" -> 0 | "Warning" -> 1 | "Information" -> 2 | _ -> 3
+let sevs = function 0 -> "Error" | 1 -> "Warning" | 2 -> "Information" | _ -> "Hint"
+let rec oitems k = function
+  | _ when k = 0 -> []
+  | sev :: title :: desc :: file :: sl :: sc :: sr :: el :: ec :: er :: rest ->
+      { ofile = opt file; orange = { rstart = { line = n sl; column = n sc; raw = n sr }; rend = { line = n el; column = n ec; raw = n er } };
+        osev = n_of_int (sevn sev); otitle = dec_str title; odesc = dec_str desc } :: oitems (k - 1) rest
+  | _ -> failwith "order: bad item"
+let show_pos p = Printf.sprintf "%d.%d.%d" (int_of_n p.line) (int_of_n p.column) (int_of_n p.raw)
+let show_oitem o =
+  Printf.sprintf "O(%s %s %s %s %s-%s)" (sevs (int_of_n o.osev)) (enc_str o.otitle) (enc_str o.odesc)
+    (match o.ofile with None -> "~" | Some f -> enc_str f) (show_pos o.orange.rstart) (show_pos o.orange.rend)
+let order_cmd = function
+  | k :: rest -> String.concat " " (List.map show_oitem (output_order (oitems (int_of_string k) rest)))
+  | _ -> "BADCMD"
+let () = Driver.register "order" order_cmd
